@@ -20,8 +20,12 @@ CONSUMER_CLS = ("drive", "load")
 
 
 def kind_of(cls):
-    if cls in SOURCE_CLS:
+    if cls in SOURCE_CLS or cls == "bad_source":
         return "Source"
+    if cls == "bad_storage":
+        return "Storage"
+    if cls == "bad_pti":
+        return "PtiPto"
     if cls in STORAGE_CLS:
         return "Storage"
     if cls == "ptipto":
@@ -162,6 +166,15 @@ def build_electric_component(d):
         if cls == "ptipto":
             return PTIPTO(name, comps, swb, rated, 1000.0, shaft_line_id=int(d.get("line", 1)))
         return SerialSystemElectric(TypeComponent.PROPULSION_DRIVE, name, TypePower.POWER_CONSUMER, comps, swb, rated, 1000.0)
+    if cls == "bad_source":      # declared a power source but not one of the classes allowed for that role
+        return ElectricComponent(type_=TypeComponent.GENERATOR, name=name, rated_power=rated, eff_curve=eff,
+                                 power_type=TypePower.POWER_SOURCE, switchboard_id=swb)
+    if cls == "bad_storage":     # declared energy storage but not a battery / supercapacitor class
+        return ElectricComponent(type_=TypeComponent.BATTERY_SYSTEM, name=name, rated_power=rated, eff_curve=eff,
+                                 power_type=TypePower.ENERGY_STORAGE, switchboard_id=swb)
+    if cls == "bad_pti":         # typed PTI/PTO system but not a PTIPTO instance
+        return ElectricComponent(type_=TypeComponent.PTI_PTO_SYSTEM, name=name, rated_power=rated, eff_curve=eff,
+                                 power_type=TypePower.PTI_PTO, switchboard_id=swb)
     if cls == "load":
         return ElectricComponent(type_=TypeComponent.OTHER_LOAD, name=name, rated_power=rated, eff_curve=eff,
                                  power_type=TypePower.POWER_CONSUMER, switchboard_id=swb)
